@@ -18,6 +18,10 @@ func main() {
 		os.Exit(2)
 	}
 	prop := os.Args[1]
+	if prop == "c08-fail-child" { // one failing-requests case in a process of its own (a Go runtime abort cannot be recovered)
+		c08FailChild()
+		return
+	}
 	fs := flag.NewFlagSet("vh", flag.ExitOnError)
 	tier := fs.String("tier", "quick", "quick|thorough")
 	seed := fs.Int64("seed", 1, "seed")
